@@ -72,6 +72,14 @@ def thorough_extras(ctx, rep, pid):
         }
         for r in res:
             print("  selftest %-5s %-12s %s" % (r["id"], r["outcome"], r["what"][:80]))
+    # independent corpora (evidence only): seeded breaking changes that attack this property must be
+    # reported, behaviour-preserving refactorings must leave this check silent
+    try:
+        rep.extra_cov["corpora"] = run_corpora(pid)
+        for k, v in rep.extra_cov["corpora"].items():
+            print("  corpus %-10s %s" % (k, {x: v[x] for x in v if x != "results"}))
+    except Exception as e:      # evidence only
+        rep.extra_cov["corpora"] = {"error": str(e)}
     if pid in ("C02", "C06", "C19"):
         try:
             from .props.C19 import graph, entry_mangled
@@ -91,6 +99,50 @@ def thorough_extras(ctx, rep, pid):
                         "coarser reach set"}
         except Exception as e:      # evidence only
             rep.extra_cov["e1_e2_crosscheck"] = {"error": str(e)}
+
+
+def run_corpora(pid):
+    import json, shutil, subprocess, tempfile
+    from concurrent.futures import ThreadPoolExecutor
+    from . import selftest
+    V = selftest.VERIF
+    jobs = []
+    sd = os.path.join(V, "seeded")
+    for d in sorted(os.listdir(sd)) if os.path.isdir(sd) else []:
+        mp = os.path.join(sd, d, "meta.json")
+        if os.path.exists(mp) and json.load(open(mp)).get("property") == pid:
+            jobs.append(("seeded", d, os.path.join(sd, d, "patch.diff")))
+    rd = os.path.join(V, "refactors")
+    for d in sorted(os.listdir(rd)) if os.path.isdir(rd) else []:
+        if os.path.exists(os.path.join(rd, d, "patch.diff")):
+            jobs.append(("refactors", d, os.path.join(rd, d, "patch.diff")))
+
+    def one(job):
+        kind, name, patch = job
+        tmp = tempfile.mkdtemp(prefix="verif-corpus-")
+        try:
+            root = os.path.join(tmp, "repo")
+            selftest.make_copy(root)
+            r = subprocess.run("patch -p1 -s < %s" % patch, shell=True, cwd=root, stdout=subprocess.PIPE,
+                               stderr=subprocess.STDOUT, text=True)
+            if r.returncode != 0:
+                return kind, name, "patch does not apply"
+            env = dict(os.environ, VERIF_REPO=root, VERIF_EVIDENCE_DIR=os.path.join(tmp, "ev"),
+                       VERIF_CACHE_DIR=os.path.join(tmp, "cache"))
+            r = subprocess.run([sys.executable, "-m", "verif.check", pid, "--tier", "quick"], cwd=V, env=env,
+                               stdout=subprocess.PIPE, stderr=subprocess.STDOUT, text=True)
+            return kind, name, {0: "silent", 1: "reported", 2: "analysis-broken"}.get(r.returncode, "error")
+        finally:
+            shutil.rmtree(tmp, ignore_errors=True)
+    with ThreadPoolExecutor(4) as ex:
+        res = list(ex.map(one, jobs))
+    out = {}
+    for kind in ("seeded", "refactors"):
+        rs = [(n, o) for k, n, o in res if k == kind]
+        want = "reported" if kind == "seeded" else "silent"
+        out[kind] = {"total": len(rs), want: sum(1 for n, o in rs if o == want),
+                     "results": [{"id": n, "outcome": o} for n, o in rs]}
+    return out
 
 
 def main():
